@@ -360,13 +360,16 @@ func ruleOneEventPerCall(r *Run, p *Prog) {
 	if !r.Anchor(ev != nil && lg != nil, "GATE", "Event / Logger types") {
 		return
 	}
+	// judged with private helpers inlined (a shared `printEvent()` of the Print family); the
+	// logger's own newEvent stays a call and counts as a creation
+	lne := p.Method("", "Logger", "newEvent")
 	creates := func(c *ssa.CallCommon) bool {
 		sc := staticCallee(c)
 		if sc == nil || sc.Signature.Recv() == nil || namedOf(sc.Signature.Recv().Type()) != lg {
 			return false
 		}
 		res := sc.Signature.Results()
-		return res.Len() == 1 && isPointer(res.At(0).Type()) && namedOf(res.At(0).Type()) == ev && sc.Object() != nil && sc.Object().Exported()
+		return res.Len() == 1 && isPointer(res.At(0).Type()) && namedOf(res.At(0).Type()) == ev && sc.Object() != nil && (sc.Object().Exported() || sc == lne)
 	}
 	n := 0
 	for _, f := range p.ModFns {
@@ -382,6 +385,8 @@ func ruleOneEventPerCall(r *Run, p *Prog) {
 		if res := f.Signature.Results(); res.Len() == 1 && namedOf(res.At(0).Type()) == ev {
 			continue
 		}
+		fo := f
+		f = p.View(f, "keep-Logger.newEvent", func(g *ssa.Function) bool { return g == lne })
 		has := false
 		eachInstr(f, func(b *ssa.BasicBlock, i int, in ssa.Instruction) {
 			if cc := callCommon(in); cc != nil && creates(cc) {
@@ -391,6 +396,7 @@ func ruleOneEventPerCall(r *Run, p *Prog) {
 		if !has {
 			continue
 		}
+		_ = fo
 		n++
 		paths, complete := enumPaths(f, 1, 2000)
 		worst := 0
